@@ -42,3 +42,46 @@ package sm3
 //@ requires len: len(msg) >= 64
 //@ ensures cf: cat8(sm3.h) == sm3_cf(old(cat8(sm3.h)), blk64(msg))
 //@ assigns sm3.h
+
+// The hash state against a byte stream S (logical variable) of which L bytes have been absorbed:
+//   nx = L mod 64, the buffer holds the last nx bytes, h is the chaining value after L/64 blocks.
+//@ define sm3inv0(z, S, L) = 0 <= L && L < pow2(60) && 0 <= z.nx && z.nx < 64 && z.nx == L & 63 && cat8(z.h) == sm3_chain(S, L >> 6)
+//@ define sm3buf(z, S, L) = forall(j, 0, z.nx, z.x[j] == S[L - z.nx + j])
+//@ define sm3inv(z, S, L) = sm3inv0(z, S, L) && sm3buf(z, S, L)
+
+//@ define chain_step(S, k) = 0 <= k && k < pow2(56) ==> sm3_chain(S, k + 1) == sm3_cf(sm3_chain(S, k), sm3_block(S, k))
+//@ define chain_zero(S) = sm3_chain(S, 0) == sm3_iv()
+
+//@ func (*sm3.SM3).Reset
+//@ mode bv
+//@ logical S bytes
+//@ ensures inv: sm3inv(sm3, S, 0) && sm3.len == 0
+//@ assigns *sm3
+
+//@ func (*sm3.SM3).Write
+//@ mode bv
+//@ abstract sm3_cf
+//@ logical S bytes
+//@ logical L int
+//@ requires inv: sm3inv(sm3, S, L)
+//@ requires data: forall(i, 0, len(data), data[i] == S[L + i])
+//@ requires room: L + len(data) < pow2(60)
+//@ case stay: sm3.nx > 0 && len(data) < 64 - sm3.nx
+//@ case fill: sm3.nx > 0 && len(data) >= 64 - sm3.nx
+//@ case empty: sm3.nx == 0
+//@ ensures inv: sm3inv0(sm3, S, L + len(data))
+//@ ensures buf [from inv, req:inv, req:data, copy1, copy2, inv:pos, inv:nx]: sm3buf(sm3, S, L + len(data))
+//@ ensures len: sm3.len == old(sm3.len) + len(data)
+//@ ensures n: n == len(data) && !nonnil(err)
+//@ assigns *sm3
+//@ after sm3.cf(sm3.x[:]) :: assert alignx: old(L - sm3.nx) == (L >> 6) << 6 && old(sm3.nx) == L & 63 && 0 <= old(sm3.nx) && old(sm3.nx) < 64
+//@ after sm3.cf(sm3.x[:]) :: assert blkx [from req:inv, req:data, copy1, alignx]: forall(j, 0, 64, sm3.x[j] == S[((L >> 6) << 6) + j])
+//@ after sm3.cf(sm3.x[:]) :: unfold first: chain_step(S, L >> 6)
+//@ after sm3.cf(data[:BlockSize]) :: assert blkd [from req:data, inv:pos]: forall(j, 0, 64, data[j] == S[L + off(data) - old(off(data)) + j])
+//@ after sm3.cf(data[:BlockSize]) :: unfold step: chain_step(S, (L + off(data) - old(off(data))) >> 6)
+//@ loop 1
+//@ invariant nx: sm3.nx == 0
+//@ invariant pos: 0 <= off(data) - old(off(data)) && off(data) - old(off(data)) + len(data) == old(len(data)) && same_array(data[0:0], old(data)[off(data) - old(off(data)):off(data) - old(off(data))])
+//@ invariant aligned: (L + off(data) - old(off(data))) & 63 == 0
+//@ invariant chain: cat8(sm3.h) == sm3_chain(S, (L + off(data) - old(off(data))) >> 6)
+//@ invariant len: sm3.len == old(sm3.len) + old(len(data))
